@@ -8,18 +8,30 @@ package main
 // operands of an operator chain, the nesting depth), the lengths 0..9, 12 and 17 and place the construct at every
 // statement position (top level, if / else-if / else block, loop body, function body, helper block, contentFor
 // block). Conditions are chosen so that different goroutines take different branches and most of them walk the
-// whole chain. Nothing here looks at the library: a program is only executed and compared / race-checked like
+// whole chain. Three more families call Go helpers written the way helpers for plush are written (tag helpers):
+// the last parameters are an options map and/or the helper context, which the call may leave out and the evaluator
+// then supplies; the helper fills defaults into, and deletes consumed keys from, the options it is given, and
+// puts them back before it returns ("opts-omit": k calls that leave the trailing arguments out; "opts-given": a
+// hash literal of k entries as the options; "arr-arg": an array literal of k elements reordered in place). Whatever
+// the evaluator hands to a call belongs to that call of that execution. Nothing here looks at the library: a program is only executed and compared / race-checked like
 // any other program of scenario (a).
 
 import (
 	"fmt"
+	"html/template"
+	"sort"
 	"strconv"
 	"strings"
+
+	plush "github.com/gobuffalo/plush/v5"
 )
 
 var c14Sizes = []int{0, 1, 2, 3, 4, 5, 6, 7, 8, 9, 12, 17}
 
-var c14Families = []string{"ladder", "ladder-else", "ladder-ret", "args", "params", "array", "hash", "block", "chain", "nest", "partial-data"}
+var c14Families = []string{"ladder", "ladder-else", "ladder-ret", "args", "params", "array", "hash", "block", "chain", "nest", "partial-data",
+	// calls of Go helpers that use what the evaluator hands them as scratch space (see c14Extra): the trailing
+	// arguments a call may leave out, and the values of hash and array literals
+	"opts-omit", "opts-given", "arr-arg"}
 
 var c14Positions = []string{"top", "if", "else", "elseif", "for", "fn", "helper", "twice", "content"}
 
@@ -29,8 +41,109 @@ var c14HashKeys = []string{"ha", "hb", "hc", "hd", "he", "hf", "hg", "hh", "hi",
 var c14IntVals = []string{"1", "2", "7", "gid", "n", "len(xs)", "add(1, 2)", "(n + 1)", "(gid * 2)", "u.Age"}
 var c14StrVals = []string{`"a"`, `"<b>"`, "s", "u.Name", `up("x")`, `"é"`}
 
-// c14Extra adds to the stateless part of every environment what the shape programs need: a variadic Go helper.
+// c14Opts is a named options type, like hctx.Map / tags.Options of the helper libraries written for plush.
+type c14Opts map[string]interface{}
+
+// c14Attrs prints what a helper did not consume from its options, sorted by key.
+func c14Attrs(m map[string]interface{}) string {
+	ks := make([]string, 0, len(m))
+	for k := range m {
+		ks = append(ks, k)
+	}
+	sort.Strings(ks)
+	var sb strings.Builder
+	for _, k := range ks {
+		sb.WriteString(" " + k + "=" + fmt.Sprint(m[k]))
+	}
+	return sb.String()
+}
+
+// c14Extra adds to the stateless part of every environment what the shape programs need: a variadic Go helper,
+// and helpers in the style of the tag helpers written for plush: the last parameters are an options map and/or the
+// HelperContext, which a call may leave out (the evaluator fills them in). They are pure functions of their
+// arguments, but they treat the options (and the array) they are GIVEN as their own scratch space for the duration
+// of the call: defaults are filled in, consumed keys are deleted, an array is reordered in place. Every call leaves
+// its argument as it found it, so one execution alone cannot tell whether the value it was handed is its own; the
+// property says it is (separate contexts, "evaluator state is per Exec").
 func c14Extra(d map[string]interface{}) map[string]interface{} {
+	// (label, [options]): the options may be left out
+	d["olink"] = func(label string, opts map[string]interface{}) string {
+		_, had := opts["href"]
+		if !had {
+			opts["href"] = "/" + label
+		}
+		href := opts["href"]
+		delete(opts, "href")
+		out := fmt.Sprintf("(%v%s)", href, c14Attrs(opts))
+		if had {
+			opts["href"] = href
+		}
+		return out
+	}
+	// the same with a named map type
+	d["omap"] = func(label string, opts c14Opts) string {
+		_, had := opts["id"]
+		if !had {
+			opts["id"] = "i-" + label
+		}
+		id := opts["id"]
+		delete(opts, "id")
+		out := fmt.Sprintf("{%v%s}", id, c14Attrs(opts))
+		if had {
+			opts["id"] = id
+		}
+		return out
+	}
+	// (name, [options], [help]): both may be left out; the default is in the options while the block runs
+	d["otag"] = func(name string, opts map[string]interface{}, help plush.HelperContext) (template.HTML, error) {
+		_, had := opts["class"]
+		if !had {
+			opts["class"] = "c-" + name
+		}
+		body := ""
+		if help.HasBlock() {
+			s, err := help.Block()
+			if err != nil {
+				return "", err
+			}
+			body = s
+		}
+		cls := opts["class"]
+		delete(opts, "class")
+		out := fmt.Sprintf("<%s class=%v%s>%s</%s>", name, cls, c14Attrs(opts), body, name)
+		if had {
+			opts["class"] = cls
+		}
+		return template.HTML(out), nil
+	}
+	// ([help]) only: what the block writes is per call
+	d["obox"] = func(help plush.HelperContext) (template.HTML, error) {
+		if !help.HasBlock() {
+			return "[]", nil
+		}
+		c := help.New()
+		c.Set("depth", 1)
+		s, err := help.BlockWith(c)
+		if err != nil {
+			return "", err
+		}
+		return template.HTML("[" + s + "]"), nil
+	}
+	// an array: reversed in place, printed, reversed back
+	d["orev"] = func(xs []interface{}) string {
+		rev := func() {
+			for i, j := 0, len(xs)-1; i < j; i, j = i+1, j-1 {
+				xs[i], xs[j] = xs[j], xs[i]
+			}
+		}
+		rev()
+		var sb strings.Builder
+		for _, x := range xs {
+			sb.WriteString(fmt.Sprint(x) + "<")
+		}
+		rev()
+		return sb.String()
+	}
 	d["cat"] = func(xs ...interface{}) string {
 		var sb strings.Builder
 		for _, x := range xs {
@@ -243,6 +356,70 @@ func c14Body(r *Rng, fam string, k int) string {
 		}
 		sb.WriteString("c<%= gid + n %>")
 		sb.WriteString(strings.Join(closers, ""))
+	case "opts-omit":
+		// k calls that leave their trailing arguments out: the options, the options and the helper context, the
+		// helper context alone; in a row or (about every third program) as the body of a loop
+		forms := []string{"olink", "otag-block", "omap", "otag", "obox", "olink-loop"}
+		f0 := r.Intn(len(forms))
+		for i := 0; i < k; i++ {
+			lab := Pick(r, c14StrVals)
+			switch forms[(f0+i)%len(forms)] {
+			case "olink":
+				sb.WriteString("<%= olink(" + lab + ") %>")
+			case "omap":
+				sb.WriteString("<%= omap(" + lab + ") %>")
+			case "otag":
+				sb.WriteString(`<%= otag("i") %>`)
+			case "otag-block":
+				sb.WriteString(`<%= otag("b") { %>t<%= gid %><%= olink(` + lab + `) %><% } %>`)
+			case "obox":
+				sb.WriteString(`<%= obox() { %><%= depth %><%= omap(` + lab + `) %><% } %>`)
+			default:
+				sb.WriteString("<%= for (oi) in range(0, " + strconv.Itoa(1+r.Intn(4)) + ") { %><%= olink(" + lab + ") %><%= oi %><% } %>")
+			}
+		}
+	case "opts-given":
+		// a call that passes its options: a hash literal of k entries, directly or through a variable used twice
+		var ps []string
+		for i := 0; i < k; i++ {
+			key := c14HashKeys[i]
+			if i == 1 {
+				key = Pick(r, []string{"href", "class", "id", key})
+			}
+			v := Pick(r, c14IntVals)
+			if r.Chance(40) {
+				v = Pick(r, c14StrVals)
+			}
+			ps = append(ps, key+": "+v)
+		}
+		lit := "{" + strings.Join(ps, ", ") + "}"
+		lab := Pick(r, c14StrVals)
+		switch r.Intn(4) {
+		case 0:
+			sb.WriteString("<%= olink(" + lab + ", " + lit + ") %>")
+		case 1:
+			sb.WriteString(`<%= otag("p", ` + lit + `) { %>g<%= gid %><% } %>`)
+		case 2:
+			sb.WriteString("<%= omap(" + lab + ", " + lit + ") %><%= olink(" + lab + ", " + lit + ") %>")
+		default:
+			sb.WriteString("<% let ov = " + lit + " %><%= olink(" + lab + ", ov) %>;<%= olink(" + lab + ", ov) %><%= len(ov) %>")
+		}
+	case "arr-arg":
+		// an array literal of k elements handed to a helper that reorders it in place
+		var es []string
+		for i := 0; i < k; i++ {
+			if r.Chance(75) {
+				es = append(es, Pick(r, c14IntVals))
+			} else {
+				es = append(es, Pick(r, c14StrVals))
+			}
+		}
+		lit := "[" + strings.Join(es, ", ") + "]"
+		if r.Bool() {
+			sb.WriteString("<%= orev(" + lit + ") %>")
+		} else {
+			sb.WriteString("<% let oa = " + lit + " %><%= orev(oa) %><%= for (ov) in oa { %><%= ov %>.<% } %><%= orev(oa) %>")
+		}
 	case "partial-data":
 		// a partial called with a data hash of k+1 entries
 		ps := []string{"x: " + Pick(r, c14IntVals)}
@@ -295,6 +472,9 @@ func c14ShapeList(cfg Config, si, pi int) []c14Shape {
 			c++
 			if fam == "nest" && k > 9 {
 				continue
+			}
+			if (fam == "opts-omit" || fam == "opts-given" || fam == "arr-arg") && (k == 4 || k == 6 || k == 7 || k == 9) {
+				continue // the helper families at the lengths 0, 1, 2, 3, 5, 8, 12, 17
 			}
 			np := len(c14Positions)
 			pos := c14Positions[(c+si+4*pi+int(cfg.Seed%uint64(np)))%np]
